@@ -59,7 +59,7 @@ func (h H) singleApplier(rule string) {
 		if ok {
 			started := 0
 			for _, g := range h.P.GoSites(cl.Parent()) {
-				if mc, isMc := g.Call.Value.(*ssa.MakeClosure); isMc && mc.Fn == cl {
+				if core.ClosureOf(g.Call.Value) == cl {
 					started++
 					// not inside a loop
 					for _, hd := range core.LoopHeaders(cl.Parent()) {
@@ -250,7 +250,7 @@ func (h H) snapshotAtAppliedIndex(rule string) {
 	for _, f := range h.P.Funcs() {
 		core.Instrs(f, func(in ssa.Instruction) {
 			if a, ok := in.(*ssa.Alloc); ok {
-				if pt, ok := a.Type().(*types.Pointer); ok && types.Identical(pt.Elem(), resp) && strings.HasPrefix(a.Comment, "complit") {
+				if pt, ok := a.Type().(*types.Pointer); ok && types.Identical(pt.Elem(), resp) && (strings.HasPrefix(a.Comment, "complit") || fieldsWritten(a)) {
 					n++
 					h.C.Check(rule+" who-builds-response", "fsmSnapResp in "+h.name(core.Root(f)), h.name(core.Root(f)) == "(*stateMachine).onSnapReq", h.pos(in), "snapshot responses must be built by the FSM goroutine's onSnapReq")
 				}
@@ -265,18 +265,40 @@ func (h H) snapshotAtAppliedIndex(rule string) {
 		if !ok {
 			return
 		}
-		a := fi.Sym(st.Addr).String()
-		for f, w := range want {
-			if strings.HasPrefix(a, "new:fsmSnapResp") && strings.HasSuffix(a, "."+f) {
-				seen++
-				v := fi.Sym(st.Val).String()
-				h.C.Check(rule+" label-from-applied-state", "(*stateMachine).onSnapReq fsmSnapResp."+f, v == w, h.pos(st), "snapshot "+f+" must be the state machine's applied "+f+"; found "+v)
-			}
+		// a field of a response value, whether built as a literal or field by field
+		fa, isFA := st.Addr.(*ssa.FieldAddr)
+		if !isFA {
+			return
 		}
-		if strings.HasPrefix(a, "new:fsmSnapResp") && strings.HasSuffix(a, ".state") {
+		pt, isPtr := fa.X.Type().Underlying().(*types.Pointer)
+		if !isPtr || !types.Identical(pt.Elem(), resp) {
+			return
+		}
+		fname := fieldName(fa)
+		if w, ok := want[fname]; ok {
+			seen++
+			v := fi.Sym(st.Val).String()
+			h.C.Check(rule+" label-from-applied-state", "(*stateMachine).onSnapReq fsmSnapResp."+fname, v == w, h.pos(st), "snapshot "+fname+" must be the state machine's applied "+fname+"; found "+v)
+		}
+		if fname == "state" {
 			v := fi.Sym(st.Val).String()
 			h.C.Check(rule+" state-from-snapshot-call", "(*stateMachine).onSnapReq fsmSnapResp.state", v == "invoke:Snapshot(stateMachine.FSM)#0", h.pos(st), "snapshot state must come from FSM.Snapshot() of the same activation; found "+v)
 		}
 	})
 	h.C.Floor(rule+" (label stores)", seen, 2)
+}
+
+// fieldsWritten: some field of the struct cell is assigned individually (the
+// cell is being built, not just holding a copy).
+func fieldsWritten(a *ssa.Alloc) bool {
+	for _, r := range *a.Referrers() {
+		if fa, ok := r.(*ssa.FieldAddr); ok {
+			for _, rr := range *fa.Referrers() {
+				if st, ok := rr.(*ssa.Store); ok && st.Addr == ssa.Value(fa) {
+					return true
+				}
+			}
+		}
+	}
+	return false
 }
